@@ -189,9 +189,8 @@ def _make_particles(desc, topology, spins, res_params):
     n = desc["n"]
     mu = desc.get("mu", 0.3)
     particles = {}
-    ident = list(desc.get("ident", []))
     for i in range(n):
-        src = min(ident) if i in ident else i
+        src = source_of(desc, i)
         fd = desc["final"][src]
         particles[i] = Particle(
             name=f"F{src}",
@@ -203,6 +202,8 @@ def _make_particles(desc, topology, spins, res_params):
         )
     for e in intermediate_edges(topology):
         att = attached(topology, e)
+        if desc.get("twin") and desc["n"] == 4:
+            att = (0, 1)  # both resonances are the same particle
         rd = res_params[att]
         mass = sum(particles[i].mass for i in att) + (len(att) - 1 + rd["eps"]) * mu
         tag = "".join(map(str, att))
@@ -218,6 +219,14 @@ def _make_particles(desc, topology, spins, res_params):
     return particles
 
 
+def source_of(desc, i: int) -> int:
+    """Final-state id whose particle definition final state `i` uses (identical particles)."""
+    if desc.get("twin") and desc["n"] == 4:
+        return i % 2  # twin resonances: final states (0, 2) and (1, 3) are pairwise identical
+    ident = list(desc.get("ident", []))
+    return min(ident) if i in ident else i
+
+
 def _half(topology, eid, final_s2) -> int:
     """1 if the edge must have half-integer spin."""
     return sum(final_s2[i] for i in attached(topology, eid)) % 2
@@ -230,7 +239,10 @@ def build_reaction(desc, *, max_transitions=None) -> Built | None:  # noqa: C901
 
     n = desc["n"]
     bound = max_transitions or desc.get("max_transitions", 48)
-    ident = list(desc.get("ident", []))
+    if desc.get("twin") and n == 4:  # X -> R R, R -> F0 F1: one topology (01)(23)
+        td0 = desc["topos"][0]
+        pc = [td0["pc"][0], td0["pc"][1], td0["pc"][1]]  # the same decay conserves parity at both nodes or at none
+        desc = dict(desc, topos=[dict(td0, idx=1, perm=[0, 1, 2, 3], pc=pc)], ident=[])
     # topologies (deduplicated)
     # (deduplicated by structure: the sets of final states below the intermediate edges
     # determine an isobar tree; copies that differ only in node numbering are not distinct
@@ -246,13 +258,14 @@ def build_reaction(desc, *, max_transitions=None) -> Built | None:  # noqa: C901
     # spins in units of 1/2
     final_s2 = {}
     for i in range(n):
-        src = min(ident) if i in ident else i
-        final_s2[i] = desc["final"][src]["s2"]
-    spins = {("f", (min(ident) if i in ident else i)): final_s2[i] for i in range(n)}
+        final_s2[i] = desc["final"][source_of(desc, i)]["s2"]
+    spins = {("f", source_of(desc, i)): final_s2[i] for i in range(n)}
     res_params = {}
     for t, td in zip(topologies, topo_descs):
         for pos, e in enumerate(intermediate_edges(t)):
             att = attached(t, e)
+            if desc.get("twin") and n == 4:
+                att = (0, 1)
             if att not in res_params:  # first topology that contains the sub-system wins
                 res_params[att] = td["res"][pos]
                 spins[("r", att)] = 2 * td["res"][pos]["k"] + _half(t, e, final_s2)
@@ -321,9 +334,8 @@ def _enumerate_transitions(desc, topology, td, particles, room):  # noqa: C901, 
     (init_id,) = topology.incoming_edge_ids
     ranges = {e: _projections(particles[e]) for e in topology.edges}
     ranges[init_id] = _subset(ranges[init_id], desc.get("hel_init", 0))
-    ident = list(desc.get("ident", []))
     for i in sorted(topology.outgoing_edge_ids):
-        src = min(ident) if i in ident else i  # identical particles: same helicity subset
+        src = source_of(desc, i)  # identical particles: same helicity subset
         ranges[i] = _subset(ranges[i], desc.get("hel_final", [0] * desc["n"])[src])
     pc = {node: bool(td["pc"][pos]) for pos, node in enumerate(nodes)}
 
